@@ -135,7 +135,12 @@ func (c *Cache[K, V]) listenerNotifyMask() removalNotifyMask {
 // without risking deadlock or reentrancy on the shard mutex.
 func (c *Cache[K, V]) removeNotifyWorker() {
 	defer c.workers.Done()
+	if verifEnabled {
+		verifAdopt(2000)
+		defer verifRetire()
+	}
 	for {
+		verifYield(501)
 		select {
 		case <-c.removeWake:
 			c.drainRemovals()
@@ -148,10 +153,12 @@ func (c *Cache[K, V]) removeNotifyWorker() {
 
 func (c *Cache[K, V]) drainRemovals() {
 	for _, s := range c.shards {
+		verifYield(502)
 		if !s.removePending.Load() {
 			continue
 		}
 
+		verifYield(503)
 		s.mu.Lock()
 		buf := s.removeBuf
 		s.removeBuf = nil
@@ -159,6 +166,7 @@ func (c *Cache[K, V]) drainRemovals() {
 		s.mu.Unlock()
 
 		for _, e := range buf {
+			verifYield(505)
 			if c.onRemove != nil {
 				c.onRemove(e.key, e.value, e.reason)
 			}
